@@ -594,12 +594,30 @@ func (w *worker) compactIfExpired(iter storage.Iter, rawKey []byte, revision uin
 func (r *scanner) checkCompactRace(ctx context.Context, revision uint64, compact bool) error {
 
 	if compact {
-		// compact operation, just try to set the compact revision
+		// compact operation, just try to raise the compact revision, never lower it
 		// if it's error, try next time
+		val, err := r.store.Get(ctx, r.config.CompactKey)
+		if err != nil && err != storage.ErrKeyNotFound {
+			klog.Errorf("get compact revision failed %v", err)
+			return err
+		}
 		bs := make([]byte, 8)
 		binary.BigEndian.PutUint64(bs, revision)
+		if len(val) > 0 {
+			compactRevision := binary.BigEndian.Uint64(val)
+			if compactRevision > revision {
+				// a newer compaction has been accepted, leave the record alone
+				return fmt.Errorf("compact revision %d less than compacted revision %d", revision, compactRevision)
+			}
+			if compactRevision == revision {
+				return nil
+			}
+			batch := r.store.BeginBatchWrite()
+			batch.CAS(r.config.CompactKey, bs, val, 0)
+			return batch.Commit(ctx)
+		}
 		batch := r.store.BeginBatchWrite()
-		batch.Put(r.config.CompactKey, bs, 0)
+		batch.PutIfNotExist(r.config.CompactKey, bs, 0)
 		return batch.Commit(ctx)
 	}
 
